@@ -66,6 +66,24 @@ impl RegexMatcherBuilder {
         log::trace!("final regex: {:?}", chir.hir().to_string());
 
         let non_matching_bytes = chir.non_matching_bytes();
+        // The fast line-by-line searcher runs the regex over a whole buffer
+        // and trusts a reported match to lie in one line. A look-around
+        // other than the line anchors of the configured line terminator
+        // (word boundaries next to the terminator bytes or to invalid UTF-8
+        // at the start of a line, CRLF-aware anchors under an LF terminator)
+        // can hold in the buffer where it does not hold on the line itself,
+        // so such matches are only candidates: the searcher then re-checks
+        // the line on its own, exactly as the slow searcher sees it.
+        let verify_on_line = {
+            use regex_syntax::hir::Look;
+            chir.hir().properties().look_set().iter().any(|look| {
+                if chir.config().crlf {
+                    !matches!(look, Look::StartCRLF | Look::EndCRLF)
+                } else {
+                    !matches!(look, Look::StartLF | Look::EndLF)
+                }
+            })
+        };
         // If we can pick out some literals from the regex, then we might be
         // able to build a faster regex that quickly identifies candidate
         // matching lines. The regex engine will do what it can on its own, but
@@ -81,7 +99,13 @@ impl RegexMatcherBuilder {
         // support it.
         let mut config = self.config.clone();
         config.line_terminator = chir.line_terminator();
-        Ok(RegexMatcher { config, regex, fast_line_regex, non_matching_bytes })
+        Ok(RegexMatcher {
+            config,
+            regex,
+            fast_line_regex,
+            non_matching_bytes,
+            verify_on_line,
+        })
     }
 
     /// Build a new matcher from a plain alternation of literals.
@@ -377,6 +401,10 @@ pub struct RegexMatcher {
     fast_line_regex: Option<Regex>,
     /// A set of bytes that will never appear in a match.
     non_matching_bytes: ByteSet,
+    /// Whether a match found in a buffer of several lines must be confirmed
+    /// on the line alone (the pattern has look-arounds that can see beyond
+    /// the line).
+    verify_on_line: bool,
 }
 
 impl RegexMatcher {
@@ -499,6 +527,9 @@ impl Matcher for RegexMatcher {
                     .search_half(&input)
                     .map(|hm| LineMatchKind::Candidate(hm.offset()))
             }
+            None if self.verify_on_line => self
+                .shortest_match(haystack)?
+                .map(LineMatchKind::Candidate),
             None => {
                 self.shortest_match(haystack)?.map(LineMatchKind::Confirmed)
             }
